@@ -6,6 +6,7 @@
 package c06
 
 import (
+	"bytes"
 	"encoding/hex"
 	"encoding/json"
 	"fmt"
@@ -13,6 +14,7 @@ import (
 	"sort"
 	"strings"
 	"sync"
+	"sync/atomic"
 
 	"github.com/DrmagicE/gmqtt/pkg/packets"
 
@@ -587,6 +589,63 @@ func Run(r *monitor.Run) {
 	// ---- 5. sizes of messages, validity predicates
 	c.sizes()
 	c.predicates()
+	// ---- 6. encoding is a function of the value: many goroutines packing at once (the encoder's buffer pool)
+	c.concurrentEncode()
+}
+
+// concurrentEncode: every goroutine packs its own v5 values over and over while the others do the same; the
+// bytes must be those a lone goroutine gets. (The encoder takes scratch buffers from a shared pool.)
+func (c *checker) concurrentEncode() {
+	r := c.r
+	rng := r.Rand("concurrent-encode")
+	g := &gen{rng: rng}
+	const workers = 24
+	type job struct {
+		pk   packets.Packet
+		want []byte
+		desc string
+	}
+	jobs := make([][]job, workers)
+	types := []byte{mqttx.CONNECT, mqttx.CONNACK, mqttx.PUBLISH, mqttx.PUBACK, mqttx.SUBSCRIBE, mqttx.SUBACK, mqttx.UNSUBSCRIBE, mqttx.DISCONNECT, mqttx.AUTH, mqttx.PUBREL}
+	for w := range jobs {
+		for k := 0; k < 6; k++ {
+			p := g.packet(types[rng.Intn(len(types))], mqttx.V5)
+			pk := toGmqtt(p, mqttx.V5)
+			if pk == nil {
+				continue
+			}
+			b, err, pan, _ := packBytes(pk)
+			if err != nil || pan != nil {
+				continue
+			}
+			jobs[w] = append(jobs[w], job{pk, append([]byte(nil), b...), p.String()})
+		}
+	}
+	rounds := r.Pick(1500, 20000)
+	var wg sync.WaitGroup
+	var bad int32
+	for w := 0; w < workers; w++ {
+		wg.Add(1)
+		go func(js []job) {
+			defer wg.Done()
+			for i := 0; i < rounds && atomic.LoadInt32(&bad) == 0; i++ {
+				for _, j := range js {
+					b, err, pan, _ := packBytes(j.pk)
+					if err != nil || pan != nil || !bytes.Equal(b, j.want) {
+						if atomic.CompareAndSwapInt32(&bad, 0, 1) {
+							r.Violation("encode.concurrent_mismatch", fmt.Sprintf("Pack of %s while other goroutines were packing gave %d bytes (err %v, panic %v) that differ from the %d bytes the same value packs to alone", j.desc, len(b), err, pan, len(j.want)),
+								map[string]any{"got_hex": hexTrunc(b), "want_hex": hexTrunc(j.want)})
+						}
+						return
+					}
+				}
+			}
+		}(jobs[w])
+	}
+	wg.Wait()
+	r.Eval(1)
+	r.Count("concurrent_encode_packs", int64(workers*rounds*6))
+	r.Nontrivial("concurrent-encode")
 }
 
 // allocSection: generator (iv) and a sample of the other generators, one decode
